@@ -33,6 +33,21 @@ CHECKS: dict[str, dict[str, str]] = {
              'served (resource, namespace) pair. The known family F15 (unknown ERROR kills the watcher silently) is a monitor verdict.',
         note='resource versions are integers of the fake server (histories start just below 10 / 100 / 1000 so that the decimal width of the version grows within a stream); pausing by peering is covered by C13 (not built yet)',
         ref='DESIGN.md 4/C19'),
+    'C13': dict(
+        technique='explicit TLA+ model of peering (Peering.tla: keep-alive, evaluation of queued snapshots, clean, deadline sleep, graceful '
+                  'exit, kill, foreign writes) checked exhaustively with TLC incl. liveness; executions of 1-3 real operators sharing a peering '
+                  'object in virtual time validated by TLC against the specification (Trace_Peering.tla, with time urgency)',
+        text='TLC: RenewsInTime and WithdrawsOnExit in every state, ExactlyTop / EventuallyStable and CleansDead under fairness, for every '
+             'order of starts, exits, kills and foreign writes of 2-3 operators with stale snapshots queued; negative and witness '
+             'configurations (period = lifetime; families F26, F27). Real operators: every PATCH of the peering object must be the write '
+             'the specification predicts at that instant (content and time), every evaluation must split the peers into dead / higher / '
+             'same exactly as the specification does on the snapshot of that version and toggle the pause accordingly; at rest exactly the '
+             'top operator is active and its streams are open, the others\' are closed; while paused no list/watch request, no handling '
+             'of changes committed after the pause began, daemons stopped within the grace period, a fresh listing before watching again.',
+        note='integer virtual seconds; the keep-alive jitter is fixed per scenario (the `random` module inside the peering engine is '
+             'replaced by the harness); one cluster-wide peering object; request latency only in the scenarios that say so; known findings '
+             'F26 and F27 are attributed by ghost variables of Peering.tla only',
+        ref='DESIGN.md 4/C13'),
     'C17': dict(
         technique='TLA+ reference state machine of indexing (Indexing.tla); the recorded steps of the real operator are replayed by TLC, which '
                   'predicts the handlers that run and the full contents of every index after each step; gate scenarios judged by the same module',
